@@ -1,8 +1,13 @@
 #!/bin/bash
 # tools/seedtest.sh <seed dir name> [property ids...]: apply seeded/<dir>/patch.diff to /repo, run the checks, undo.
+# The evidence files are put back afterwards: evidence that is committed must come from runs on the unchanged tree.
 d=$1; shift
 props=${@:-$(/venv/bin/python -c "import json;print(json.load(open('/verif/seeded/$d/meta.json'))['property'])")}
 cd /repo && git status --short | grep -q . && { echo "repo dirty"; exit 2; }
 git -C /repo apply /verif/seeded/$d/patch.diff || exit 2
+keep=$(mktemp -d)
+cp -a /verif/evidence/. $keep/
 for p in $props; do (cd /verif && ./check $p --tier quick | grep -E "VIOLATION|KNOWN|^\[" | tail -4); done
 git -C /repo checkout -- . ; git -C /repo status --short
+cp -a $keep/. /verif/evidence/ ; rm -rf $keep
+(cd /verif && PYTHONPATH=/repo/src /venv/bin/python harness/regen.py all >/dev/null 2>&1)
